@@ -10,7 +10,7 @@ from bip_utils.ecc.secp256k1.secp256k1_point_ecdsa import Secp256k1PointEcdsa
 from bip_utils.ecc.secp256k1.secp256k1_keys_coincurve import Secp256k1PublicKeyCoincurve, Secp256k1PrivateKeyCoincurve
 from bip_utils.ecc.secp256k1.secp256k1_keys_ecdsa import Secp256k1PublicKeyEcdsa, Secp256k1PrivateKeyEcdsa
 
-LEAN_MODULES = ["BipVerif.Props.C12", "BipVerif.Props.C12Group"]
+LEAN_MODULES = ["BipVerif.Props.C12", "BipVerif.Props.C12Group", "BipVerif.Props.C12Ed"]
 POINT = {"secp256k1": Secp256k1PointCoincurve, "nist256p1": Nist256p1Point, "ed25519": Ed25519Point, "ed25519blake2b": Ed25519Blake2bPoint,
          "ed25519kholaw": Ed25519KholawPoint, "ed25519monero": Ed25519MoneroPoint}
 GEN = {"secp256k1": Secp256k1, "nist256p1": Nist256p1, "ed25519": Ed25519, "ed25519blake2b": Ed25519Blake2b, "ed25519kholaw": Ed25519Kholaw,
@@ -248,7 +248,132 @@ def relations(rng, tier, rpt):
             if rebuilt != pt_out(pt):
                 rep("%s key built from a point returns a different point" % c, "X=%d Y=%d" % (pt.X(), pt.Y()), rebuilt, pt_out(pt))
                 break
+    rpt.extra["validity_per_class_checks"] = _validity_per_class(rng, tier, rep, run)
+    from harness.props.accessors_common import key_class_accessors
+    na2 = 0
+    try:
+        for what, inp, got, want in key_class_accessors(rng, 3 if tier == "quick" else 60):
+            rep(what, inp, got, want)
+            na2 += 1
+    except Exception as ex:  # noqa  - an accessor of a valid key raised
+        import traceback
+        rep("an accessor of a valid key / point / curve object raised", traceback.format_exc()[-600:], type(ex).__name__, "a value")
+    rpt.extra["key_class_accessor_findings"] = na2
     rpt.extra["from_point_checks"] = nfp
     rpt.extra["accessor_order_checks"] = na
     rpt.extra["backend_comparisons"] = n
     return bad[:8]
+
+
+def _on_weier(c, x):
+    """is x the abscissa of a point of the curve?  (Euler's criterion on x^3 + a x + b; plain integers, independent of every back-end)"""
+    p = P[c]
+    if x >= p:
+        return False
+    rhs = (x * x * x + 7) % p if c == "secp256k1" else (x * x * x - 3 * x + 0x5AC635D8AA3A93E7B3EBBD55769886BC651D06B0CC53B0F63BCE3C3E27D2604B) % p
+    return rhs != 0 and pow(rhs, (p - 1) // 2, p) == 1
+
+
+def _validity_per_class(rng, tier, rep, run):
+    """'byte strings that are not curve points are rejected', observed at IsValidBytes of every key class: XxxKey.IsValidBytes(b) tells
+    whether b is a key OF THAT CURVE — it holds exactly when XxxKey.FromBytes(b) does not raise ValueError (and, for compressed SEC1
+    strings, exactly when x is on the curve by Euler's criterion) — whichever classes were asked about the same bytes before, in whichever
+    order, and however often. The strings are chosen so that their validity DIFFERS between the classes (x on one Weierstrass curve
+    only, ed25519 encodings with and without the 00 prefix, 32 bytes that are no ed25519 point but a fine sr25519 key, scalars between the
+    two group orders, ...); each string is fresh, and is put first to a class that accepts it (even strings) or refuses it (odd strings)."""
+    import bip_utils as B
+    pubs = {"secp256k1": B.Secp256k1PublicKey, "secp256k1/coincurve": Secp256k1PublicKeyCoincurve, "secp256k1/ecdsa": Secp256k1PublicKeyEcdsa,
+            "nist256p1": B.Nist256p1PublicKey, "ed25519": B.Ed25519PublicKey, "ed25519blake2b": B.Ed25519Blake2bPublicKey,
+            "ed25519kholaw": B.Ed25519KholawPublicKey, "ed25519monero": B.Ed25519MoneroPublicKey, "sr25519": B.Sr25519PublicKey}
+    privs = {"secp256k1": B.Secp256k1PrivateKey, "secp256k1/coincurve": Secp256k1PrivateKeyCoincurve, "secp256k1/ecdsa": Secp256k1PrivateKeyEcdsa,
+             "nist256p1": B.Nist256p1PrivateKey, "ed25519": B.Ed25519PrivateKey, "ed25519blake2b": B.Ed25519Blake2bPrivateKey,
+             "ed25519kholaw": B.Ed25519KholawPrivateKey, "ed25519monero": B.Ed25519MoneroPrivateKey, "sr25519": B.Sr25519PrivateKey}
+    reps = 2 if tier == "quick" else 24
+
+    def rb(n):
+        return bytes(rng.randrange(256) for _ in range(n))
+
+    def find_x(k1, r1):
+        while True:
+            x = rng.getrandbits(256)
+            if _on_weier("secp256k1", x) == k1 and _on_weier("nist256p1", x) == r1:
+                return x.to_bytes(32, "big")
+
+    pub_strings = []       # (what, bytes, {class: validity known independently})
+    for _ in range(reps):
+        for k1, r1 in ((True, False), (False, True), (True, True), (False, False)):
+            pre = bytes([rng.choice([2, 3])])
+            pub_strings.append(("compressed SEC1 string, x on secp256k1: %s, on P-256: %s" % (k1, r1), pre + find_x(k1, r1),
+                                {"secp256k1": k1, "secp256k1/coincurve": k1, "secp256k1/ecdsa": k1, "nist256p1": r1}))
+        for c in ("secp256k1", "nist256p1"):
+            unc = POINT[c].FromBytes(gmul(c, rng.randrange(1, order(c)))).RawDecoded().ToBytes()
+            pub_strings.append(("uncompressed %s point" % c, b"\x04" + unc, {}))
+            pub_strings.append(("raw x||y of a %s point" % c, unc, {}))
+        for c in ("ed25519", "ed25519blake2b", "ed25519monero"):
+            enc = gmul(c, rng.randrange(1, L))
+            pub_strings.append(("encoding of a %s point" % c, enc, {"sr25519": True}))
+            pub_strings.append(("00-prefixed encoding of a %s point" % c, b"\x00" + enc, {"sr25519": False}))
+        r32 = rb(32)
+        pub_strings.append(("32 random bytes", r32, {"sr25519": True}))
+        pub_strings.append(("00-prefixed 32 random bytes", b"\x00" + rb(32), {"sr25519": False}))
+        pub_strings.append(("33 random bytes", rb(33), {"sr25519": False}))
+    nk1, nr1 = ORD["secp256k1"], ORD["nist256p1"]
+    priv_strings = []
+    for _ in range(reps):
+        for what, v in (("scalar between the P-256 and secp256k1 group orders", rng.randrange(nr1, nk1)), ("scalar below the ed25519 group order", rng.randrange(1, L)),
+                        ("scalar between the ed25519 order and the P-256 order", rng.randrange(L, nr1)), ("scalar above both Weierstrass orders", rng.randrange(nk1, 2**256))):
+            for order_name, bo in (("big-endian", "big"), ("little-endian", "little")):
+                known = {}
+                if bo == "big":
+                    known = {"secp256k1": 0 < v < nk1, "secp256k1/coincurve": 0 < v < nk1, "secp256k1/ecdsa": 0 < v < nk1, "nist256p1": 0 < v < nr1}
+                else:
+                    known = {"ed25519monero": 0 < v < L}
+                priv_strings.append(("%s, %s" % (what, order_name), v.to_bytes(32, bo), known))
+        priv_strings.append(("64 random bytes", rb(64), {}))
+        priv_strings.append(("31 random bytes", rb(31), {}))
+    n = 0
+    for kind, classes, strings in (("public", pubs, pub_strings), ("private", privs, priv_strings)):
+        for si, (what, bs, known) in enumerate(strings):
+            def from_bytes(c):
+                try:
+                    k = classes[c].FromBytes(bs)
+                    return True, (k.RawCompressed().ToHex() if kind == "public" else k.Raw().ToHex())
+                except ValueError:
+                    return False, None
+                except Exception as ex:  # noqa  (which exceptions may escape is C14's business)
+                    return None, exc_kind(ex)
+            names = list(classes)
+            # the string goes to IsValidBytes of every class BEFORE any FromBytes; the reference is computed afterwards
+            ref0 = {c: known[c] for c in known}
+            rng.shuffle(names)
+            want_first = si % 2 == 0
+            lead = [c for c in names if c in ref0 and ref0[c] == want_first]
+            if lead:
+                names.remove(lead[0])
+                names.insert(0, lead[0])
+            said = [(c, run(lambda: classes[c].IsValidBytes(bs))) for c in names]
+            ref = {c: from_bytes(c) for c in names}
+            again = [(c, run(lambda: classes[c].IsValidBytes(bs))) for c in reversed(names)]
+            ref2 = {c: from_bytes(c) for c in reversed(names)}
+            n += 1
+            hist = " -> ".join("%s:%s" % (c, v) for c, v in said)
+            for c in names:
+                ok, val = ref[c]
+                if c in known and ok is not None and ok != known[c]:
+                    rep("%s key FromBytes disagrees with the curve about a byte string (%s)" % (kind, what), "%s %s" % (c, bs.hex()), str(ok), str(known[c]))
+                    break
+                if ref2[c] != ref[c]:
+                    rep("%s key FromBytes gives different answers for the same bytes at different times" % kind, "%s %s" % (c, bs.hex()), str(ref2[c]), str(ref[c]))
+                    break
+                if ok is None:
+                    continue
+                for when, obs in (("first round", dict(said)[c]), ("second round, reverse order", dict(again)[c])):
+                    if obs is not ok:
+                        rep("%s.IsValidBytes disagrees with %s.FromBytes on the same bytes (%s) after the same bytes were put to the other key classes"
+                            % (classes[c].__name__, classes[c].__name__, what),
+                            "%s key bytes %s; IsValidBytes asked in the order %s (%s)" % (kind, bs.hex(), hist, when), str(obs), str(ok))
+                        break
+                else:
+                    continue
+                break
+    return n
